@@ -12,6 +12,8 @@ pub enum Site {
     Eq,
     Clone,
     Closure,
+    /// a destructor of a stored value (only injected by operations that ask for it)
+    Drop,
 }
 
 impl Site {
@@ -21,6 +23,7 @@ impl Site {
             Site::Eq => "Eq",
             Site::Clone => "Clone",
             Site::Closure => "Closure",
+            Site::Drop => "Drop",
         }
     }
 }
@@ -58,6 +61,9 @@ pub struct Ctx {
     // fuse
     pub fuse: Option<u64>,
     pub fuse_fired: Option<(Site, u64)>,
+    /// panic in the n-th destructor of a stored value run inside the SUT window
+    pub drop_fuse: Option<u64>,
+    pub drops_in_sut: u64,
     // ids
     pub step: u64,
     pub next_in_step: u64,
@@ -69,7 +75,7 @@ pub struct Ctx {
     // default hasher for collections created through `Default`
     pub default_hasher: (u64, u8),
     // totals for evidence
-    pub total_fuse_fired: [u64; 4],
+    pub total_fuse_fired: [u64; 5],
 }
 
 thread_local! {
@@ -108,6 +114,7 @@ pub fn window_reset() {
         c.cb_seq = 0;
         c.cb_log.clear();
         c.fuse_fired = None;
+        c.drops_in_sut = 0;
         c.drops_in_window = 0;
         c.dropped_ids_in_window.clear();
     });
@@ -129,6 +136,7 @@ pub fn callback(site: Site) {
                 Site::Eq => c.eqs += 1,
                 Site::Clone => c.clones += 1,
                 Site::Closure => c.closures += 1,
+                Site::Drop => {}
             }
             c.cb_seq += 1;
             if c.record {
@@ -138,6 +146,33 @@ pub fn callback(site: Site) {
                 let n = c.cb_seq;
                 c.fuse_fired = Some((site, n));
                 c.total_fuse_fired[site as usize] += 1;
+                true
+            } else {
+                false
+            }
+        })
+    };
+    if blow {
+        let _g = HarnessGuard::new();
+        std::panic::panic_any(FuseBlown);
+    }
+}
+
+/// A stored value's destructor runs. If the drop fuse is armed for this ordinal (and no panic
+/// is already unwinding), the destructor panics - after the ledger has recorded the drop.
+pub fn drop_callback() {
+    if !in_sut_window() {
+        return;
+    }
+    let blow = {
+        let _g = HarnessGuard::new();
+        CTX.with(|c| {
+            let mut c = c.borrow_mut();
+            c.drops_in_sut += 1;
+            if c.drop_fuse == Some(c.drops_in_sut) && c.fuse_fired.is_none() && !std::thread::panicking() {
+                let n = c.drops_in_sut;
+                c.fuse_fired = Some((Site::Drop, n));
+                c.total_fuse_fired[Site::Drop as usize] += 1;
                 true
             } else {
                 false
